@@ -66,7 +66,7 @@ def _compare_builds(ctx, tag, lines, out):
     ctx.plain_requests = getattr(ctx, "plain_requests", 0) + len(idx)
     for j, i in enumerate(idx):
         g = got[j] if j < len(got) - 1 or (j < len(got) and rc == 0) else "ABORT rc=%s" % rc
-        if g != out[i]:
+        if g != out[i] and g != "NOHOOK":
             if len(diffs) < 50:
                 diffs.append({"request": lines[i][:2000], "impl": g[:600], "model": "(build with debug assertions, equal to the model on the streams) " + out[i][:600],
                               "build": "no-debug-assertions", "stream": "oracle requests " + tag})
